@@ -8,16 +8,16 @@ from . import norm
 from .cfg import CFG, MUTATORS
 from .model import Func, Program, own_nodes, parent, ancestors, AnalysisError, stmt_text, same_fn
 
-_CFG_CACHE: Dict[int, CFG] = {}
+_CFG_CACHE: Dict = {}
 
 
 def cfg_of(f: Func, subst_env: bool = True) -> CFG:
     k = (id(f.node), subst_env)
-    c = _CFG_CACHE.get(k)
-    if c is None:
-        c = CFG(f.node, single_defs(f) if subst_env else None)
-        _CFG_CACHE[k] = c
-    return c
+    hit = _CFG_CACHE.get(k)
+    if hit is None or hit[0] is not f.node:      # ids are reused once a program is freed: keep the node alive and compare identity
+        hit = (f.node, CFG(f.node, single_defs(f) if subst_env else None))
+        _CFG_CACHE[k] = hit
+    return hit[1]
 
 
 def single_defs(f: Func) -> Dict[str, ast.expr]:
@@ -661,14 +661,16 @@ def _instantiate(target: Func, c: ast.Call, tag: str) -> Tuple[List[ast.stmt], O
     return out, ret
 
 
-_INLINE_CACHE: Dict[Tuple[int, int], Func] = {}
+_INLINE_CACHE: Dict = {}
 
 
 def inline_helpers(P: Program, f: Func, depth: int = 2) -> Func:
     k = (id(P), id(f.node))
-    if k not in _INLINE_CACHE:
-        _INLINE_CACHE[k] = _inline_helpers(P, f, depth)
-    return _INLINE_CACHE[k]
+    hit = _INLINE_CACHE.get(k)
+    if hit is None or hit[0] is not P or hit[1] is not f.node:
+        hit = (P, f.node, _inline_helpers(P, f, depth))
+        _INLINE_CACHE[k] = hit
+    return hit[2]
 
 
 def _inline_helpers(P: Program, f: Func, depth: int = 2) -> Func:
@@ -710,8 +712,9 @@ def _inline_helpers(P: Program, f: Func, depth: int = 2) -> Func:
                 continue
             # recv.m(a, helper(..), b): the helper runs before the outer call; its body may be placed before the statement when
             # everything evaluated before it is a plain name / attribute / constant
-            if d > 0 and isinstance(st, ast.Expr) and isinstance(st.value, ast.Call) and _inlinable(P, f, st.value) is None and norm.attr_chain(st.value.func) is not None \
-                    and not st.value.keywords:
+            if d > 0 and isinstance(st, (ast.Expr, ast.Return, ast.Assign)) and isinstance(st.value, ast.Call) and _inlinable(P, f, st.value) is None \
+                    and norm.attr_chain(st.value.func) is not None and not st.value.keywords \
+                    and (not isinstance(st, ast.Assign) or (len(st.targets) == 1 and isinstance(st.targets[0], ast.Name))):
                 idx = [i_ for i_, a_ in enumerate(st.value.args) if isinstance(a_, ast.Call) and _inlinable(P, f, a_) is not None]
                 if len(idx) == 1 and all(isinstance(a_, (ast.Name, ast.Constant)) or norm.attr_chain(a_) is not None for a_ in st.value.args[:idx[0]]):
                     hc = st.value.args[idx[0]]
@@ -829,15 +832,15 @@ def private_closure(P: Program, f: Func, depth: int = 3) -> Set[str]:
 # ---------------------------------------------------------------------------------------------------------------------
 # `xs.extend(e for v in it)`  ==  `for v in it: xs.append(e)`   (same elements, same order, same evaluation order)
 
-_DESUGAR_CACHE: Dict[int, Func] = {}
+_DESUGAR_CACHE: Dict = {}
 
 
-def desugar_extend(f: Func) -> Func:
+def desugar_extend(f: Func, lists: bool = False) -> Func:
     """A copy of f in which statement-level `X.extend(<one-generator comprehension>)` (and `X += [<comprehension>]`) is written
     as the element-wise loop it abbreviates; f itself if there is nothing to rewrite."""
-    k = id(f.node)
-    if k in _DESUGAR_CACHE:
-        return _DESUGAR_CACHE[k]
+    k = (id(f.node), lists)
+    if k in _DESUGAR_CACHE and _DESUGAR_CACHE[k][0] is f.node:
+        return _DESUGAR_CACHE[k][1]
     node = norm.clone(f.node)
     changed = False
 
@@ -866,6 +869,35 @@ def desugar_extend(f: Func) -> Func:
                 new = loop_of(st.value.func.value, st.value.args[0], st)
             elif isinstance(st, ast.AugAssign) and isinstance(st.op, ast.Add) and isinstance(st.target, (ast.Name, ast.Attribute)) and isinstance(st.value, ast.ListComp):
                 new = loop_of(st.target, st.value, st)
+            elif isinstance(st, ast.Assign) and len(st.targets) == 1 and isinstance(st.targets[0], ast.Name) and isinstance(st.value, ast.DictComp) \
+                    and len(st.value.generators) == 1 and not st.value.generators[0].is_async and st.targets[0].id not in norm.names_in(st.value):
+                # D = {k: v for i in it}   ==   D = {}; for i in it: D[k] = v
+                gen = st.value.generators[0]
+                store = ast.Assign(targets=[ast.Subscript(value=ast.Name(id=st.targets[0].id, ctx=ast.Load()), slice=st.value.key, ctx=ast.Store())], value=st.value.value)
+                body: List[ast.stmt] = [store]
+                for c in reversed(gen.ifs):
+                    body = [ast.If(test=c, body=body, orelse=[])]
+                tgt = norm.clone(gen.target)
+                for x in ast.walk(tgt):
+                    if isinstance(x, ast.Name):
+                        x.ctx = ast.Store()
+                init = ast.Assign(targets=[st.targets[0]], value=ast.Dict(keys=[], values=[]))
+                lp2 = ast.For(target=tgt, iter=gen.iter, body=body, orelse=[], type_comment=None)
+                for x in list(ast.walk(init)) + list(ast.walk(lp2)):
+                    if not hasattr(x, "lineno"):
+                        ast.copy_location(x, st)
+                changed = True
+                out.extend([init, lp2])
+                continue
+            elif lists and isinstance(st, ast.Assign) and len(st.targets) == 1 and isinstance(st.targets[0], ast.Name) and isinstance(st.value, ast.ListComp) \
+                    and len(st.value.generators) == 1 and st.targets[0].id not in norm.names_in(st.value):
+                # X = [e for v in it]   ==   X = []; for v in it: X.append(e)
+                lp3 = loop_of(ast.Name(id=st.targets[0].id, ctx=ast.Load()), st.value, st)
+                if lp3 is not None:
+                    init = ast.copy_location(ast.Assign(targets=[st.targets[0]], value=ast.copy_location(ast.List(elts=[], ctx=ast.Load()), st)), st)
+                    changed = True
+                    out.extend([init, lp3])
+                    continue
             if new is not None:
                 changed = True
                 out.append(new)
@@ -882,7 +914,7 @@ def desugar_extend(f: Func) -> Func:
 
     node.body = rewrite(node.body)
     if not changed:
-        _DESUGAR_CACHE[k] = f
+        _DESUGAR_CACHE[k] = (f.node, f)
         return f
     ast.fix_missing_locations(node)
     for n in ast.walk(node):
@@ -890,22 +922,22 @@ def desugar_extend(f: Func) -> Func:
             ch._parent = n  # type: ignore[attr-defined]
     node._parent = getattr(f.node, "_parent", None)  # type: ignore[attr-defined]
     g = Func(f.mod, f.qual, node, f.cls)
-    _DESUGAR_CACHE[k] = g
+    _DESUGAR_CACHE[k] = (f.node, g)
     return g
 
 
 # ---------------------------------------------------------------------------------------------------------------------
 # expression-level look-through of private predicates:  `self._parents_completed(op)`  ->  all(... for p in op.parents)
 
-_PRED_CACHE: Dict[Tuple[int, int], Func] = {}
+_PRED_CACHE: Dict = {}
 
 
 def inline_predicates(P: Program, f: Func, depth: int = 2) -> Func:
     """A copy of f in which calls of private, side-effect-free helpers of the same class / module whose body is a single
     `return <expr>` are replaced by that expression (parameters -> arguments, comprehension variables renamed apart)."""
     k = (id(P), id(f.node))
-    if k in _PRED_CACHE:
-        return _PRED_CACHE[k]
+    if k in _PRED_CACHE and _PRED_CACHE[k][0] is f.node and _PRED_CACHE[k][1] is P:
+        return _PRED_CACHE[k][2]
     changed = [False]
     cnt = [0]
 
@@ -957,7 +989,7 @@ def inline_predicates(P: Program, f: Func, depth: int = 2) -> Func:
         if ast.dump(node) == before:
             break
     if not changed[0]:
-        _PRED_CACHE[k] = f
+        _PRED_CACHE[k] = (f.node, P, f)
         return f
     ast.fix_missing_locations(node)
     for n in ast.walk(node):
@@ -965,7 +997,7 @@ def inline_predicates(P: Program, f: Func, depth: int = 2) -> Func:
             ch._parent = n  # type: ignore[attr-defined]
     node._parent = getattr(f.node, "_parent", None)  # type: ignore[attr-defined]
     g = Func(f.mod, f.qual, node, f.cls)
-    _PRED_CACHE[k] = g
+    _PRED_CACHE[k] = (f.node, P, g)
     return g
 
 
@@ -973,14 +1005,14 @@ def inline_predicates(P: Program, f: Func, depth: int = 2) -> Func:
 # ---------------------------------------------------------------------------------------------------------------------
 # the package as the rules see it: every function with its private helpers inlined, minus the helpers that were absorbed
 
-_VIEW_CACHE: Dict[int, Dict[str, List[Func]]] = {}
+_VIEW_CACHE: Dict = {}
 
 
 def view_funcs(P: Program, m) -> List[Func]:
     """Functions of module m in the form P.fn() hands them out (helpers inlined); a private helper that is inlined at every one
     of its call sites is not listed on its own (its statements are already seen inside its callers)."""
     k = id(P)
-    if k not in _VIEW_CACHE:
+    if k not in _VIEW_CACHE or _VIEW_CACHE[k][0] is not P:
         views: Dict[str, List[Tuple[Func, Func]]] = {}
         still_called: Set[str] = set()
         inlined_somewhere: Set[str] = set()
@@ -997,5 +1029,119 @@ def view_funcs(P: Program, m) -> List[Func]:
             still_called |= {norm.call_name(c) for c in _module_nodes(mm) if isinstance(c, ast.Call)} - {None}
             views[mm.rel] = lst
         absorbed = {n for n in inlined_somewhere if n not in still_called and n.startswith("_") and not n.startswith("__")}
-        _VIEW_CACHE[k] = {rel: [v for f, v in lst if f.name not in absorbed] for rel, lst in views.items()}
-    return _VIEW_CACHE[k].get(m.rel, [])
+        _VIEW_CACHE[k] = (P, {rel: [v for f, v in lst if f.name not in absorbed] for rel, lst in views.items()})
+    return _VIEW_CACHE[k][1].get(m.rel, [])
+
+
+# ---------------------------------------------------------------------------------------------------------------------
+# object aliases:  stats = pool_stats[pool_id]  ...  stats["avail_cpu"] -= x      ==      pool_stats[pool_id]["avail_cpu"] -= x
+
+_DEALIAS_CACHE: Dict = {}
+
+
+def _is_alias_term(e: ast.expr) -> bool:
+    if isinstance(e, ast.Name):
+        return True
+    if isinstance(e, ast.Attribute):
+        return _is_alias_term(e.value)
+    if isinstance(e, ast.Subscript):
+        return _is_alias_term(e.value) and (isinstance(e.slice, ast.Constant) or isinstance(e.slice, ast.Name))
+    return False
+
+
+def _root_depth(e: ast.expr) -> Tuple[Optional[str], int]:
+    dp = 0
+    while isinstance(e, (ast.Subscript, ast.Attribute)):
+        e = e.value
+        dp += 1
+    return (e.id if isinstance(e, ast.Name) else None), dp
+
+
+def dealias(f: Func) -> Func:
+    """A copy of f in which a local bound once to an existing object (`d = table[i]`, `pool = self.pools[i]`, operands not re-bound
+    before the uses) is replaced by that expression at every use, so that reads and stores through the alias are seen as reads and
+    stores of the object itself; f if there is no such local."""
+    k = id(f.node)
+    if k in _DEALIAS_CACHE and _DEALIAS_CACHE[k][0] is f.node:
+        return _DEALIAS_CACHE[k][1]
+    binds: Dict[str, List[ast.AST]] = {}
+    for n in own_nodes(f.node):
+        tgts = []
+        if isinstance(n, ast.Assign):
+            tgts = n.targets
+        elif isinstance(n, (ast.AugAssign, ast.AnnAssign)):
+            tgts = [n.target]
+        elif isinstance(n, (ast.For, ast.AsyncFor)):
+            tgts = [n.target]
+        elif isinstance(n, (ast.With, ast.AsyncWith)):
+            tgts = [it.optional_vars for it in n.items if it.optional_vars is not None]
+        elif isinstance(n, ast.NamedExpr):
+            tgts = [n.target]
+        for t in tgts:
+            for x in ast.walk(t):
+                if isinstance(x, ast.Name) and isinstance(x.ctx, ast.Store):
+                    binds.setdefault(x.id, []).append(n)
+    loc_stores: List[Tuple[str, int, ast.AST]] = []
+    for n in own_nodes(f.node):
+        tg = []
+        if isinstance(n, (ast.Assign, ast.Delete)):
+            tg = n.targets
+        elif isinstance(n, (ast.AugAssign, ast.AnnAssign)):
+            tg = [n.target]
+        for t in tg:
+            for x in (t.elts if isinstance(t, (ast.Tuple, ast.List)) else [t]):
+                if isinstance(x, (ast.Subscript, ast.Attribute)):
+                    r_, dp = _root_depth(x)
+                    if r_:
+                        loc_stores.append((r_, dp, n))
+        if isinstance(n, ast.Call) and isinstance(n.func, ast.Attribute) and n.func.attr in MUTATORS:
+            r_, dp = _root_depth(n.func.value)
+            if r_:
+                loc_stores.append((r_, dp, n))
+    params = set(f.params())
+    env: Dict[str, ast.expr] = {}
+    for name, sites in binds.items():
+        if len(sites) != 1 or name in params:
+            continue
+        d = sites[0]
+        if not (isinstance(d, ast.Assign) and len(d.targets) == 1 and norm.is_name(d.targets[0], name)):
+            continue
+        v = d.value
+        if not (isinstance(v, ast.Subscript) and _is_alias_term(v)) or name in norm.names_in(v):
+            continue     # only element lookups `table[i]` / `a.b[i]`: plain `x = y.z` locals are values more often than objects
+        # the location read must not be stored to (directly, or by re-binding / mutating a container on the way to it) between the
+        # definition and a use; stores *below* it (table[i]["k"] -= 1 for the alias table[i]) go through the alias and are fine
+        b2 = dict(binds)
+        root, depth_v = _root_depth(v)
+        b2[root] = list(binds.get(root, [])) + [st for (r_, dp, st) in loc_stores if r_ == root and dp <= depth_v]
+        if not _operands_stable(f, name, v, b2):
+            continue
+        env[name] = v
+    # aliases of aliases
+    for _ in range(3):
+        env = {k_: norm.subst(v_, {a: b for a, b in env.items() if a != k_}) for k_, v_ in env.items()}
+    if not env:
+        _DEALIAS_CACHE[k] = (f.node, f)
+        return f
+    node = norm.clone(f.node)
+
+    class T(ast.NodeTransformer):
+        def visit_Name(self, n: ast.Name):
+            if isinstance(n.ctx, ast.Load) and n.id in env:
+                return norm.clone(env[n.id])
+            return n
+
+        def visit_FunctionDef(self, n):
+            return self.generic_visit(n) if n is node else n
+
+        def visit_Lambda(self, n):
+            return n
+    node = T().visit(node)
+    ast.fix_missing_locations(node)
+    for n in ast.walk(node):
+        for ch in ast.iter_child_nodes(n):
+            ch._parent = n  # type: ignore[attr-defined]
+    node._parent = getattr(f.node, "_parent", None)  # type: ignore[attr-defined]
+    g = Func(f.mod, f.qual, node, f.cls)
+    _DEALIAS_CACHE[k] = (f.node, g)
+    return g
